@@ -25,14 +25,14 @@ var errCut = errors.New("transport failure (scripted)")
 
 // cutConn serves the client byte stream in random chunks and ends at cutAt with EOF or an error.
 type cutConn struct {
-	mu     sync.Mutex
-	r      *rand.Rand
-	data   []byte
-	pos    int
-	cutAt  int
-	kind   string
-	w      bytes.Buffer
-	closed bool
+	mu         sync.Mutex
+	r          *rand.Rand
+	data       []byte
+	pos        int
+	cutAt      int
+	kind       string
+	w          bytes.Buffer
+	closed     bool
 	oneAtATime bool
 }
 
